@@ -38,6 +38,17 @@ def setup():
         if bad:
             print(out[-1500:])
             ok = False
+    import shutil
+    import tempfile
+    tmp = tempfile.mkdtemp(prefix='apalache_setup_', dir=common.workdir('setup'))
+    p = subprocess.run(['apalache-mc', 'typecheck', '--out-dir=' + tmp, 'PurityInd.tla'], cwd=os.path.join(common.SPEC, 'apalache'),
+                       stdout=subprocess.PIPE, stderr=subprocess.STDOUT)
+    shutil.rmtree(tmp, ignore_errors=True)
+    bad = 'EXITCODE: OK' not in p.stdout.decode()
+    print(('FAIL ' if bad else 'ok   ') + 'apalache/PurityInd.tla (Apalache type checker)')
+    if bad:
+        print(p.stdout.decode()[-1500:])
+        ok = False
     from . import tables
     tables.load(force=True)
     print('ok   table self checks (GF256, ISOTables) and export')
